@@ -2,6 +2,7 @@ package props
 
 import (
 	"fmt"
+	"net/http"
 	"strings"
 	"time"
 
@@ -9,6 +10,7 @@ import (
 	"verif/harness/internal/ev"
 	"verif/harness/internal/msg"
 	"verif/harness/internal/obs"
+	"verif/harness/internal/sched"
 	"verif/harness/internal/verify"
 	"verif/harness/internal/world"
 	"verif/harness/internal/xt"
@@ -357,6 +359,9 @@ func init() { Registry["C07"] = runC07 }
 
 func runC07(ctx Ctx) int {
 	world.PinClock()
+	if rc, ok := concDispatch("C07", ctx); ok {
+		return rc
+	}
 	run := ev.NewRun("C07")
 	run.Rule = "messages labelled conformant by the generator only. AuthnRequest: all pairs (quick) / triples (thorough) of values of 28 dimensions (serialisation style, optional parts, timestamps, transports, signing none/rsa-sha1/rsa-sha256 x KeyInfo x certificate text wrapping x signer implementation, percent-encoding style, parameter order, SAMLEncoding, SP/IdP signing requirements, issuer/endpoint configuration, ACS shapes) plus the full product of the 11-dimensional encoding/signing sub-space; LogoutRequest: k<=3 over 12 dims; AttributeQuery: k<=3 over 12 dims; plus 10 histories in which storage fails transiently or the SP's registration changes between two requests on one provider (key rotation, signing requirement switched on/off, ACS / SLO list replaced, late registration). One execution = fresh provider + one real request; oracle: AuthnRequest -> exactly one CreateAuthRequest and 303; LogoutRequest -> LogoutResponse Success; AttributeQuery -> SOAP Response Success for the queried subject"
 	run.Assume = []string{"conformance is the generator's notion (SAML core/bindings: UTC 'Z' timestamps, Destination = advertised location or absent, schema element order, RSA signatures computed over the octets sent)", "signature algorithms rsa-sha1 and rsa-sha256 only"}
@@ -466,6 +471,11 @@ func runC07(ctx Ctx) int {
 	for _, h := range c07Histories {
 		report(c07History(h), "history", []string{"history=" + h}, c07Replay{History: h})
 	}
+	cb, cs := 1, 90
+	if run.Tier == "thorough" {
+		cb, cs = 2, 1200
+	}
+	runConc(run, "C07", cb, cs)
 	run.Sample(sItems[0].p)
 	run.Sample(sItems[len(sItems)/2].p)
 	run.Sample(lItems[len(lItems)/2].p)
@@ -473,3 +483,116 @@ func runC07(ctx Ctx) int {
 	finishCapped(run, c1 && c2 && c3, fmt.Sprintf("AuthnRequest: %d shapes (k<=%d over %d dims + full product of %d sub-space dims); LogoutRequest: %d (k<=3); AttributeQuery: %d (k<=3)", len(sItems), k, len(c07SSO.Dims), len(c07SubDims), len(lItems), len(aItems)))
 	return run.Finish()
 }
+
+
+// ---- concurrent part: two conformant requests at the same time on ONE provider (controlled scheduler) ---------------------
+// The provider derives its issuer from the Host of each request (two tenants): every advertised location is per request.
+// Every body is a conformant request (or a plain metadata fetch) and must get the positive outcome of its kind in every
+// interleaving.
+
+type c07ConcBody struct {
+	Name string
+	Kind string // authn | logout | attrquery | metadata
+	SSO  ssoP
+	LO   loP
+	AQ   aqP
+}
+
+const c07HostB = "other.example:8443"
+
+var c07ConcBodies = []c07ConcBody{
+	{Name: "authn-redirect-host-a", Kind: "authn", SSO: ssoP{}},
+	{Name: "authn-redirect-host-b", Kind: "authn", SSO: ssoP{Host: c07HostB}},
+	{Name: "authn-signed-redirect-host-a", Kind: "authn", SSO: ssoP{Sign: "redirect-sha256"}},
+	{Name: "authn-signed-post-host-b", Kind: "authn", SSO: ssoP{Sign: "env-sha256", Transport: "post", Host: c07HostB}},
+	{Name: "logout-post-host-a", Kind: "logout", LO: loP{}},
+	{Name: "logout-redirect-B-host-b", Kind: "logout", LO: loP{Issuer: "b", Transport: "redirect", Host: c07HostB}},
+	{Name: "attrquery-alice-host-a", Kind: "attrquery", AQ: aqP{}},
+	{Name: "attrquery-signed-bob-host-b", Kind: "attrquery", AQ: aqP{Sign: "env-sha256", Subject: "bob", Host: c07HostB}},
+	{Name: "metadata-host-b", Kind: "metadata"},
+}
+
+// c07ConcBuild: request and expected subject for one body; the request is valid on the shared world of c07ConcWorld.
+func c07ConcReq(b c07ConcBody, w *world.World) (*http.Request, string) {
+	switch b.Kind {
+	case "authn":
+		p := b.SSO
+		p.IssuerCfg = "host"
+		_, req, t := ssoBuild(p)
+		if !t.Conformant {
+			panic("c07 concurrent body is not conformant: " + b.Name)
+		}
+		return req, ""
+	case "logout":
+		p := b.LO
+		p.IssuerCfg = "host"
+		_, req, t := loBuild(p)
+		if !t.Conformant {
+			panic("c07 concurrent body is not conformant: " + b.Name)
+		}
+		return req, ""
+	case "attrquery":
+		p := b.AQ
+		p.IssuerCfg = "host"
+		_, req, t := aqBuild(p)
+		if !t.Conformant {
+			panic("c07 concurrent body is not conformant: " + b.Name)
+		}
+		return req, t.SubjectName
+	}
+	return world.NewRequest("GET", c07HostB, w.Cfg.MetadataPath(), nil, "", nil), ""
+}
+
+func c07ConcWorld() *world.World {
+	w, _, _ := ssoBuild(ssoP{IssuerCfg: "host"})
+	if _, err := w.Store.RegisterSP("app-c", loSPC().XML()); err != nil {
+		panic(err)
+	}
+	w.Store.AddUser(aqUser(""))
+	w.Store.AddUser(&world.User{ID: "u-bob", Username: "bob", Email: "bob@example.com", FullName: "Bob Builder", Custom: []world.Custom{{Name: "role", Format: "urn:custom:fmt", Values: []string{"guest"}}}})
+	return w
+}
+
+func c07ConcScenarios() []concScenario {
+	var out []concScenario
+	for i := range c07ConcBodies {
+		for j := i; j < len(c07ConcBodies); j++ {
+			bs := [2]c07ConcBody{c07ConcBodies[i], c07ConcBodies[j]}
+			var subjects [2]string
+			out = append(out, concScenario{
+				Name: bs[0].Name + " || " + bs[1].Name,
+				Build: func() (*world.World, []func() *world.Reply) {
+					w := c07ConcWorld()
+					r0, s0 := c07ConcReq(bs[0], w)
+					r1, s1 := c07ConcReq(bs[1], w)
+					subjects = [2]string{s0, s1}
+					return w, []func() *world.Reply{func() *world.Reply { return w.Do(r0) }, func() *world.Reply { return w.Do(r1) }}
+				},
+				Judge: func(w *world.World, reps []*world.Reply, _ *sched.Exec) []concFinding {
+					var fs []concFinding
+					for t, rep := range reps {
+						m := obs.Decode(rep)
+						ok := false
+						switch bs[t].Kind {
+						case "authn":
+							ok = rep.Panic == "" && rep.Status == 303 && world.CountCalls(rep.Calls, "CreateAuthRequest") == 1
+						case "logout":
+							ok = rep.Panic == "" && m.Root != nil && m.Root.Local == "LogoutResponse" && m.Success()
+						case "attrquery":
+							ok = rep.Panic == "" && m.Kind == obs.KindSOAP && m.Success() && m.Response().Path("Assertion", "Subject", "NameID").TextContent() == subjects[t]
+						case "metadata":
+							ok = rep.Panic == "" && rep.Status == 200
+						}
+						if !ok {
+							fs = append(fs, concFinding{Clause: "conformant-" + bs[t].Kind + "-request-not-accepted-while-another-request-is-in-flight", Thread: t, Detail: obs.Describe(rep, m) + " " + clip(rep.Body, 300)})
+						}
+					}
+					return fs
+				},
+			})
+		}
+	}
+	return out
+}
+
+func init() { concRegistry["C07"] = c07ConcScenarios }
